@@ -19,6 +19,7 @@ EXPLANATION += " (R01.9) the payload setter handed to send_with / send_with_asyn
 EXPLANATION += ' R01.4 also requires every answer of consume to be produced after asking the container (no `None` shortcut). Publication outcomes may be encoded as Option / Result / bool or as an integer with one failure constant: what the constant means is read from the producing function.'
 EXPLANATION += " (R01.10) the index-based publish rebuilds its candidate sequence id from the caller's slot index on every retry (C08 R08.3) and the pool re-enqueues a slot only after destroying its payload (C13 R13.1)."
 EXPLANATION += " R01.2 also requires the crossbeam channel's setter-based sends to retry the re-send without bound (spinning_forever / retry_with_async + yielding_forever): the setter already ran, a bounded retry whose outcome is ignored drops the event while the send answers Ok; R01.10 also carries C14's R14.5 / R14.8 (one owner per slot across OgreUnique -> OgreArc)."
+EXPLANATION += ' (R01.11) an accepted event still buffered when the streams are told to end is yielded: the end flag is consulted only after the container answered empty (C06 R06.2).'
 ASSUMPTIONS = ["loss- and duplicate-freedom of AtomicMove's reserve->publish / reserve->release protocol under every interleaving needs schedule exploration and is not decided",
                "crossbeam-channel internals trusted"]
 
